@@ -82,8 +82,9 @@ Definition nonempty {A} (l : list A) : bool := match l with [] => false | _ => t
 Definition len_ok {A} (l : list A) : bool := (zlen l <? two63)%Z.
 (** Go cannot allocate more than 2^48 bytes: a payload, or an aggregate of 40-byte messages, beyond that is not a reply any client could hold *)
 Definition max_len : Z := 281474976710656%Z.
-Definition blob_ok (s : bytes) : bool := (zlen s <=? max_len)%Z.
-Definition agg_ok {A} (l : list A) : bool := (zlen l * 40 <=? max_len)%Z.
+Definition le_max (x : Z) : bool := (x <=? max_len)%Z.
+Definition blob_ok (s : bytes) : bool := le_max (zlen s).
+Definition agg_ok {A} (l : list A) : bool := le_max (zlen l * 40).
 
 Definition decorable (v : rv) : bool :=
   match v with
